@@ -485,10 +485,137 @@ def run_shard(spec, acc, ctx):
 
 
 def replay(case, acc, ctx):
-    """Re-executes the recorded trace literally against the real class and the model."""
-    from data_persistence.persistent_array import SPFLBArray
-    acc.note("replay of C19 re-runs the generator with the same seed; trace kept in the replay file for reading")
+    """Re-executes the recorded operation trace literally against the real class and the reference list."""
+    import ast
+    import shutil
+    from data_persistence.persistent_array import SPFLBArray as SP
+    params, ops = case["params"], case["ops"]
+    n, isz, chunk = params["n"], params["item_size"], params["chunk"]
+    d = ctx.tmpdir("replay")
+    path = os.path.join(d, "a")
+    model = Model(n, isz)
+    arr = None
+
+    def val(x):
+        try:
+            return bytes.fromhex(x)
+        except (ValueError, TypeError):
+            return ast.literal_eval(x)
+
+    def diverged(step, what):
+        acc.violation("array:replay-diverged", f"step {step} {ops[step][:2]}: {what}", {"params": params, "ops": ops[:step + 1]})
+
+    for step, op in enumerate(ops):
+        kind = op[0]
+        try:
+            if kind == "create":
+                arr = SP.create(path, item_size=isz, array_len=n, item_num_in_one_file=chunk)
+            elif kind == "from_list":
+                init = [bytes.fromhex(x) for x in op[1]]
+                arr = SP.from_list(init, path, chunk_size=chunk, item_size=isz, list_len=n)
+                for i, x in enumerate(init):
+                    model.items[i] = model.pad(x)
+            elif kind == "get":
+                i = op[1]
+                try:
+                    got = arr[i]
+                    if not (-n <= i < n):
+                        return diverged(step, "out-of-range read did not raise")
+                    if got != model.items[i]:
+                        return diverged(step, f"arr[{i}] = {got!r}, model {model.items[i]!r}")
+                except IndexError:
+                    if -n <= i < n:
+                        return diverged(step, "in-range read raised IndexError")
+            elif kind == "set":
+                i, v = op[1], val(op[2])
+                ok = (-n <= i < n) and model.valid_item(v)
+                try:
+                    arr[i] = v
+                    if not ok:
+                        return diverged(step, "invalid write did not raise")
+                    model.items[i] = model.pad(v)
+                except (IndexError, ValueError, TypeError):
+                    if ok:
+                        return diverged(step, "valid write raised")
+            elif kind == "getslice":
+                sl = slice(*op[1])
+                if arr[sl] != model.items[sl]:
+                    return diverged(step, "slice read differs")
+            elif kind in ("setslice", "setslice_gen_fail"):
+                sl = slice(*op[1])
+                vals = [val(x) for x in op[2]]
+                fail_at = op[3]
+                idx = list(range(*sl.indices(n)))
+
+                def it():
+                    for j, x in enumerate(vals):
+                        if fail_at is not None and j == fail_at:
+                            raise RuntimeError("value iterator failed")
+                        yield x
+                    if fail_at is not None and fail_at >= len(vals):
+                        raise RuntimeError("value iterator failed at end")
+                fail_req = None if fail_at is None else min(fail_at, len(vals))
+                planned, will_fail = [], False
+                for j in range(len(idx)):
+                    if fail_req is not None and j == fail_req:
+                        will_fail = True
+                        break
+                    if j >= len(vals):
+                        break
+                    if not model.valid_item(vals[j]):
+                        will_fail = True
+                        break
+                    planned.append((idx[j], model.pad(vals[j])))
+                try:
+                    arr[sl] = it()
+                    if will_fail:
+                        return diverged(step, "failing slice assignment did not raise")
+                    for i2, v2 in planned:
+                        model.items[i2] = v2
+                except Exception:
+                    if not will_fail:
+                        return diverged(step, "valid slice assignment raised")
+            elif kind == "del":
+                i = op[1]
+                try:
+                    del arr[i]
+                    if not (-n <= i < n):
+                        return diverged(step, "out-of-range delete did not raise")
+                    model.items[i] = bytes(isz)
+                except IndexError:
+                    if -n <= i < n:
+                        return diverged(step, "in-range delete raised")
+            elif kind == "delslice":
+                sl = slice(*op[1])
+                del arr[sl]
+                for j in range(*sl.indices(n)):
+                    model.items[j] = bytes(isz)
+            elif kind == "clear":
+                arr.clear()
+                model.items = [bytes(isz)] * n
+            elif kind == "iter":
+                if list(arr) != model.items:
+                    return diverged(step, "iteration differs")
+            elif kind == "in":
+                x = bytes.fromhex(op[1])
+                if (x in arr) != (x in model.items):
+                    return diverged(step, "membership differs")
+            elif kind == "len":
+                if len(arr) != n:
+                    return diverged(step, "len differs")
+            elif kind in ("close+open", "final-reopen") or kind.startswith("close;"):
+                arr.close()
+                arr = SP.open(path)
+            if arr is not None and kind not in ("create",):
+                if arr[:] != model.items:
+                    return diverged(step, "full read differs from the model after this step")
+                extra = set(os.listdir(d)) - ({"a_meta"} | {f"a_{k}" for k in range(math.ceil(n / chunk))})
+                if extra:
+                    return diverged(step, f"stray files {sorted(extra)}")
+        except Exception as e:
+            return diverged(step, f"raised {type(e).__name__}: {e}")
     acc.count("replayed")
+    shutil.rmtree(d, ignore_errors=True)
 
 
 def finish(m, tier, seed):
